@@ -11,6 +11,13 @@ import (
 )
 
 func (i *Interpreter) resolveIncludeStatement(statements []ast.Statement, isRoot bool) ([]ast.Statement, error) {
+	return i.resolveIncludes(statements, isRoot, nil)
+}
+
+// resolveIncludes expands include statements; including holds the modules whose expansion is in
+// progress, so that a module including itself (directly or through others) is an error instead
+// of an endless recursion.
+func (i *Interpreter) resolveIncludes(statements []ast.Statement, isRoot bool, including []string) ([]ast.Statement, error) {
 	var resolved []ast.Statement
 	for _, stmt := range statements {
 		if include, ok := stmt.(*ast.IncludeStatement); ok {
@@ -22,11 +29,19 @@ func (i *Interpreter) resolveIncludeStatement(statements []ast.Statement, isRoot
 				}
 				continue
 			}
+			for _, name := range including {
+				if name == include.Module.Value {
+					return nil, exception.Runtime(
+						&stmt.GetMeta().Token, "recursive include of VCL module '%s'", include.Module.Value,
+					)
+				}
+			}
 			included, err := i.includeFile(include, isRoot)
 			if err != nil {
 				return nil, exception.Runtime(&stmt.GetMeta().Token, "%s", err.Error())
 			}
-			recursive, err := i.resolveIncludeStatement(included, isRoot)
+			next := append(append([]string{}, including...), include.Module.Value)
+			recursive, err := i.resolveIncludes(included, isRoot, next)
 			if err != nil {
 				return nil, err
 			}
